@@ -7,6 +7,7 @@ import SC.Lemmas.Merge
 import SC.Lemmas.Attach
 import SC.Lemmas.Refine
 import SC.Lemmas.IdInv
+import SC.Lemmas.WfHist
 namespace SC.Props
 open SC
 
@@ -193,6 +194,50 @@ theorem C02_child_read_runs_on_backend_content (s : State) (oi id : Nat) (o : Ob
   obtain ⟨c', dc, _, h2, h3, h4, _, h6, _, h8⟩ :=
     call_child_refines s oi id o d p c op ho hst hown hsub hid hnd hlt hother hv hwd hwt hk hns hpre
   exact ⟨c', dc, h3, h4, h2, h6, h8 hr⟩
+
+/-- C02, first sentence, IN ANY REACHABLE STATE: after any history of public calls, constructor
+calls and outside writers (outside data without duplicate keys, as Python values are), whatever
+the backend currently holds under key `k` — valid data — `obj[k]` through ANY object bound to the
+resource returns exactly that value, whatever the object had cached; a key the backend does not
+have raises `KeyError`.  No hypothesis about the object's memory is left. -/
+theorem C02_getitem_in_any_history (fams : List Fam) (history : List SStep)
+    (ha : ∀ st ∈ history, SStep.argsWf st = true) (oi : Nat) (o : Obj) (i : Nat) (kvs0 : List (Key × T))
+    (dkvs : List (Key × J)) (k : Key) :
+    let s := srun (State.empty fams) history
+    s.objs[oi]? = some o → o.root = .dict i kvs0 → s.store o.res = some (.dict () dkvs) →
+    Valid (s.fam o) (Tr.dict () dkvs : J) →
+    (∀ v, Tr.lookup k dkvs = some v →
+      ∃ x : T, (call s (.root oi) (.dRead (.getitem k))).2 = .ok (.node x) ∧ Eqv x v) ∧
+    (Tr.lookup k dkvs = none → (call s (.root oi) (.dRead (.getitem k))).2 = .error .keyError) := by
+  intro s ho hroot hst hv
+  have hw : WfOK s := srun_wfOK history _ (empty_wfOK fams) ha
+  have hwd : Tr.wfKV dkvs = true := by simpa [Tr.wf] using store_wf hw hst
+  exact C02_getitem_returns_backend_value s oi o i kvs0 dkvs k ho hroot hst hv hwd
+    (hw.objs o (List.mem_of_getElem? ho))
+
+/-- C02 for a read through a NESTED CHILD HANDLE, IN ANY REACHABLE STATE (identity, ownership and
+key-uniqueness hypotheses discharged by the history invariants). -/
+theorem C02_child_read_in_any_history (fams : List Fam) (history : List SStep)
+    (ha : ∀ st ∈ history, SStep.argsWf st = true)
+    (oi id : Nat) (o : Obj) (d : J) (p : List Seg) (c : T) (op : Op) :
+    let s := srun (State.empty fams) history
+    s.objs[oi]? = some o → s.store o.res = some d → Tr.sub p o.root = some c → c.id? = some id →
+    Valid (s.fam o) d → kindsMatch p o.root d = true → op.skipsLoad = false → op.isRead = true →
+    ∃ c' dc, Tr.sub p d = some dc ∧ Eqv c' dc ∧ c'.id? = some id ∧
+      (call s (.node id) op).2 =
+        (match (runBody (s.fam o) c' op (loadRoot s oi).1.next).err with
+         | some e => .error e
+         | none => .ok (runBody (s.fam o) c' op (loadRoot s oi).1.next).out) ∧
+      (call s (.node id) op).1.stores = s.stores := by
+  intro s ho hst hsub hid hv hk hns hr
+  obtain ⟨hok, hown⟩ := srun_ownOK history _ (empty_idOK fams) (empty_ownOK fams)
+  have hw : WfOK s := srun_wfOK history _ (empty_wfOK fams) ha
+  have hsl := ids_sublist_flat s.objs oi o ho
+  have hmem : id ∈ Tr.ids o.root := id_mem_of_sub p o.root c id hsub hid
+  exact C02_child_read_runs_on_backend_content s oi id o d p c op ho hst (hown.owner oi o ho id hmem) hsub hid
+    (List.Nodup.sublist hsl hok.nodup) (fun i hi => hok.bound i (hsl.subset hi))
+    (fun j o' hj ho' hin => flat_disjoint s.objs j oi o' o hok.nodup ho' ho hj id hin hmem)
+    hv (store_wf hw hst) (hw.objs o (List.mem_of_getElem? ho)) hk hns hr
 
 /-- non-vacuity of attachment: a handle two levels down (dict inside a list inside the root dict)
 survives a reload that rewrites scalars around it, adds and removes keys -/
